@@ -74,11 +74,14 @@ def gen_comb(rng, nmax):
     if style < 0.4:
         slot = rng.choice([37.5e9, 50e9, 50e9, 75e9, 100e9, 150e9])
         baud = rng.choice([slot * 0.64, slot * 0.85, slot, 32e9 if slot >= 32e9 else slot])
+        # one slot width for all, baud rate per channel: any re-assignment of baud rates still fits every slot
+        mixed_baud = rng.random() < 0.45
         f0 = band_lo + rng.randint(0, 40) * 12.5e9
         step = slot * rng.choice([1, 1, 1, 2])
         p = 10 ** (rng.uniform(-6, 4) / 10) * 1e-3
         for i in range(n):
-            chans.append([f0 + i * step, baud, slot, p if rng.random() < 0.8 or style < 0.2 else
+            b = min(slot, rng.choice([slot * rng.uniform(0.3, 1.0), 24e9, 32e9, 44e9, 64e9])) if mixed_baud else baud
+            chans.append([f0 + i * step, b, slot, p if rng.random() < 0.8 or style < 0.2 else
                           10 ** (rng.uniform(-8, 5) / 10) * 1e-3])
     else:
         edge = band_lo + rng.randint(0, 40) * 6.25e9
@@ -117,9 +120,9 @@ def gen_case(rng, nmax=120, malformed=False):
     lo = min(c[0] for c in chans)
     hi = max(c[0] for c in chans)
     fd = {'length_km': rng.choice([rng.uniform(1, 200), rng.uniform(1, 200), 10 ** rng.uniform(0, 2.3), 80.0, 1.0, 200.0]),
-          'att_in': rng.choice([0, 0, rng.uniform(0, 3)]),
-          'con_in': rng.choice([0, 0.5, rng.uniform(0, 2)]),
-          'con_out': rng.choice([0, 0.5, rng.uniform(0, 2)])}
+          'att_in': rng.choice([0, 0, 0.0, 1e-9, rng.uniform(0, 3)]),
+          'con_in': rng.choice([0, 0.0, 0.5, 1e-9, rng.uniform(0, 2)]),
+          'con_out': rng.choice([0, 0.0, 0.5, rng.uniform(0, 2)])}
     r = rng.random()
     fd['ref'] = None if r < 0.7 else (['w', rng.uniform(1530e-9, 1600e-9)] if r < 0.85 else ['f', rng.uniform(186e12, 196e12)])
     bad = rng.choice(['loss', 'disp']) if malformed else None
@@ -139,7 +142,8 @@ def gen_case(rng, nmax=120, malformed=False):
         fd['disp'] = ['s', sign * rng.choice([1.67e-5, 4e-6, 2.0e-5, rng.uniform(2e-6, 2.5e-5)])]
     else:
         # D + slope; keep the zero-dispersion frequency outside of the comb (beta2 of a pair must not cancel)
-        fd['disp'] = ['l', rng.uniform(8e-6, 2.5e-5), rng.choice([0.06e3, 0.058e3, rng.uniform(0.02e3, 0.09e3)])]
+        fd['disp'] = ['l', rng.uniform(8e-6, 2.5e-5),
+                      rng.choice([0.06e3, 0.058e3, rng.uniform(0.02e3, 0.09e3), 0.0, 0.0, 1e-9, -1e-9, -0.03e3, 0])]
     r = rng.random()
     fd['area'] = None if r < 0.4 else (['a', rng.uniform(50e-12, 130e-12)] if r < 0.75 else ['g', rng.uniform(0.7e-3, 2.2e-3)])
     return {'fiber': fd, 'chan': chans, 'order': 'shuffled' if rng.random() < 0.3 and len(chans) > 1 else 'sorted',
@@ -214,8 +218,12 @@ def drive(case):
         return res
     su.NliSolver.compute_nli = staticmethod(wrapped)
     try:
-        si = make_si(case['chan'])       # supplied in the order of the case; SpectralInformation sorts
+        supplied = list(case['chan'])
+        if case.get('order') == 'shuffled':      # the comb is handed over in another order; SpectralInformation sorts
+            import random
+            random.Random(case['perm_seed'] + 1).shuffle(supplied)
         try:
+            si = make_si(supplied)
             out = fib(si)
             rec['out'] = captured['nli']
             rec['pch_at_nli'] = captured['pch']
@@ -240,7 +248,20 @@ def close(a, b, tol):
 
 
 def oracle(case, rec, rng_perm):
-    """the statement of C03 evaluated on what compute_nli returns; list of (key, description)"""
+    """the statement of C03 evaluated on what compute_nli returns; list of (key, description).
+    An exception raised by the implementation on a variation (scaled / raised / reduced / permuted) of a comb it
+    accepted is itself a failure of the law being tested, never a crash of the check."""
+    state = {'step': 'baseline'}
+    try:
+        return _oracle(case, rec, state)
+    except Exception as e:  # noqa
+        key = {'permuted': 'order_dependence_raises', 'permuted_solver': 'order_dependence_raises',
+               'scaled': 'scaling_raises', 'raised': 'power_raise_raises', 'reduced': 'channel_removal_raises',
+               'baseline': 'exception'}[state['step']]
+        return [(key, f"{state['step']} comb: {type(e).__name__}: {str(e)[:160]} (the comb itself was accepted)")]
+
+
+def _oracle(case, rec, state):
     import random
     fails = []
     fib = rec['fiber']
@@ -251,6 +272,7 @@ def oracle(case, rec, rng_perm):
         return fails
     # cube law
     k = case['k']
+    state['step'] = 'scaled'
     sc = direct_nli(fib, [[c[0], c[1], c[2], c[3] * k] for c in chans])
     for i, (a, b) in enumerate(zip(base, sc)):
         if not close(a * k ** 3, b, 1e-9):
@@ -260,6 +282,7 @@ def oracle(case, rec, rng_perm):
     j = case['pick']
     up = [list(c) for c in chans]
     up[j][3] *= 10 ** (case['raise_db'] / 10)
+    state['step'] = 'raised'
     ra = direct_nli(fib, up)
     for i, (a, b) in enumerate(zip(base, ra)):
         if b < a * (1 - 1e-12):
@@ -270,6 +293,7 @@ def oracle(case, rec, rng_perm):
     # adding a channel never lowers anybody's NLI (comb without channel j  vs  comb with it)
     if len(chans) > 1:
         less = chans[:j] + chans[j + 1:]
+        state['step'] = 'reduced'
         lo = direct_nli(fib, less)
         hi = base[:j] + base[j + 1:]
         for i, (a, b) in enumerate(zip(lo, hi)):
@@ -282,17 +306,66 @@ def oracle(case, rec, rng_perm):
     perm = list(range(len(chans)))
     r.shuffle(perm)
     sh = [chans[i] for i in perm]
+    state['step'] = 'permuted'
     v1 = direct_nli(fib, sh)                 # SpectralInformation sorts -> same order as base
     for i, (a, b) in enumerate(zip(base, v1)):
         if not close(a, b, 1e-12):
             fails.append(('order_dependent', f'channels supplied in another order: NLI of channel {i} {a} -> {b}'))
             break
+    state['step'] = 'permuted_solver'
     v2 = direct_nli(fib, sh, duck=True)
     for pos, i in enumerate(perm):
         if not close(base[i], v2[pos], 1e-9):
             fails.append(('order_dependent_solver', f'compute_nli on unsorted arrays: channel {i} {base[i]} -> {v2[pos]}'))
             break
     return fails
+
+
+def ref_phys(fd, f):
+    """alpha, beta2, gamma of the fibre at frequency f from its declared parameters, written independently of gnpy
+    (scalar arithmetic): what 'that fibre' means in the statement.  None where a table does not cover f."""
+    c0, n2, r, n1 = 299792458.0, 2.6e-20, 4.2e-6, 1.468
+    if not fd['ref']:
+        lam = 1550e-9
+        fref = c0 / lam
+    elif fd['ref'][0] == 'w':
+        lam = fd['ref'][1]
+        fref = c0 / lam
+    else:
+        fref = fd['ref'][1]
+        lam = c0 / fref
+
+    def interp(xs, ys):
+        if len(xs) == 1:
+            return None
+        if f < xs[0] or f > xs[-1]:
+            return 'out'
+        for x0, x1, y0, y1 in zip(xs, xs[1:], ys, ys[1:]):
+            if f <= x1:
+                return y0 + (y1 - y0) * (f - x0) / (x1 - x0)
+    ls = fd['loss']
+    if isinstance(ls, dict):
+        lc = ls['value'][0] if len(ls['value']) == 1 else interp(ls['frequency'], ls['value'])
+    else:
+        lc = ls
+    d = fd['disp']
+    if not d:
+        disp = (f / fref) ** 2 * 1.67e-5
+    elif d[0] == 's':
+        disp = (f / fref) ** 2 * d[1]
+    elif d[0] == 'l':
+        disp = d[1] + d[2] * (c0 / f - c0 / fref)        # a declared slope, zero included, means D + S (lambda - lambda_ref)
+    else:
+        disp = (f / d[1][0]) ** 2 * d[2][0] if len(d[1]) == 1 else interp(d[1], d[2])
+    if lc == 'out' or disp == 'out':
+        return None
+    a = fd['area']
+    aeff = 83e-12 if not a else (a[1] if a[0] == 'a' else 2 * math.pi * n2 / (lam * a[1]))
+    contrast = 0.5 * (c0 / (2 * math.pi * fref * r * n1) * math.exp(math.pi * r ** 2 / aeff)) ** 2
+    v = 2 * math.pi * f / c0 * r * n1 * math.sqrt(2 * contrast)
+    w = r / math.sqrt(math.log(v))
+    return [lc * 1e-3 / (10 * math.log10(math.e)), -((c0 / f) ** 2 * disp) / (2 * math.pi * c0),
+            2 * math.pi * n2 * f / (c0 * math.pi * w ** 2)]
 
 
 def i_strict(base, ra, j):
@@ -378,6 +451,13 @@ def run(ctx):
     terms, meta = [], []
     for c in cases:
         rec = drive(c)
+        if isinstance(rec['out'], str) and c.get('order') == 'shuffled' and 'fiber' in rec:
+            rec2 = drive(dict(c, order='sorted'))
+            if not isinstance(rec2['out'], str):
+                ctx.violation('order_dependence_raises',
+                              f"comb accepted when supplied sorted by frequency, but {rec['out'][2:]} ({rec.get('exc', '')[:120]}) "
+                              'when the same channels are supplied in another order', strip(c))
+                rec = rec2
         chans = sorted(c['chan'], key=lambda ch: ch[0])
         n = len(chans)
         numeric = not isinstance(rec['out'], str)
@@ -394,6 +474,12 @@ def run(ctx):
         if numeric:
             for key, desc in oracle(c, rec, rng):
                 ctx.violation(key, desc, strip(c))
+            # the coefficients the solver used are those of the declared fibre
+            ref = ref_phys(fd, chans[0][0])
+            if ref and not isinstance(rec['phys'], str):
+                for name, a, b in zip(('alpha', 'beta2', 'gamma'), rec['phys'], ref):
+                    if not close(a, b, 1e-9):
+                        ctx.violation('fibre_coefficient', f'{name} at {chans[0][0]:.6g} Hz: fibre gives {a!r}, declared parameters give {b!r}', strip(c))
             # the NLI really added to the spectrum is the vector compute_nli returned, channel by channel
             att = 10 ** (-(fd['con_in'] + fd['att_in']) / 10)
             for i, (r_, nl, ch) in enumerate(zip(rec['nli_ratio'], rec['out'], chans)):
@@ -412,7 +498,11 @@ def run(ctx):
             r.shuffle(sh)
             fd0 = dict(fd, con_in=0, att_in=0)
             terms.append(f'run_nli {fiber_term(fd0)} {chan_terms(sh)}')
-            rec['duck'] = direct_nli(rec['fiber'], sh, duck=True)
+            try:
+                rec['duck'] = direct_nli(rec['fiber'], sh, duck=True)
+            except Exception as e:  # noqa
+                rec['duck'] = f'E:{type(e).__name__}'
+                ctx.violation('order_dependence_raises', f'compute_nli on unsorted arrays: {type(e).__name__}: {str(e)[:120]}', strip(c))
             ctx.count('unsorted_solver_cases')
         meta.append((c, rec, sh is not None))
 
